@@ -49,6 +49,9 @@ type c11Resp struct {
 	// FailWrapsEOF: the failing callback returns an error that wraps io.EOF
 	// (still "another error": only the unwrapped io.EOF means "resume later")
 	FailWrapsEOF bool `json:"fail_wraps_eof,omitempty"`
+	// Poll: the consumer polls with NextPackageUntil(wait=false) until
+	// something is there (the packets of the response arrive meanwhile)
+	Poll bool `json:"polling_consumer,omitempty"`
 	Yield        int  `json:"yield"` // Gosched calls between packets while feeding
 }
 
@@ -232,7 +235,7 @@ func c11Run(c *Ctx, cs c11Case) {
 					}
 				}
 			}
-			_, retErr = k.ch.NextPackageUntil(ctx, true, func(pkg tds.Package) (bool, error) {
+			cb := func(pkg tds.Package) (bool, error) {
 				idx := cbCalls
 				cbCalls++
 				kd := kindOf(pkg)
@@ -246,7 +249,17 @@ func c11Run(c *Ctx, cs c11Case) {
 					return idx%2 == 1, errC11Callback
 				}
 				return kd == "done0", nil
-			})
+			}
+			if rp.Poll {
+				for {
+					_, retErr = k.ch.NextPackageUntil(ctx, false, cb)
+					if !errors.Is(retErr, tds.ErrNoPackageReady) || ctx.Err() != nil {
+						return
+					}
+					runtime.Gosched()
+				}
+			}
+			_, retErr = k.ch.NextPackageUntil(ctx, true, cb)
 		}()
 		for _, p := range pkts {
 			k.tr.Feed(p)
@@ -559,6 +572,10 @@ func c11GenResp(rnd *rt.Rand, nextMsg *uint32, curPS *int, first bool) c11Resp {
 					if rnd.Chance(1, 3) {
 						// the server confirms the size already in use
 						nv = strconv.Itoa(*curPS)
+					} else if rnd.Chance(1, 4) {
+						// the old value is the server's view, not the
+						// client's: a new size "confirmed" as old and new
+						ov = nv
 					}
 					*curPS, _ = strconv.Atoi(nv)
 				}
@@ -638,6 +655,7 @@ func c11GenResp(rnd *rt.Rand, nextMsg *uint32, curPS *int, first bool) c11Resp {
 			rp.FailAt = -1
 		}
 		rp.FailWrapsEOF = rnd.Chance(1, 3)
+		rp.Poll = rnd.Chance(1, 3)
 	}
 	rp.Yield = rnd.Intn(4)
 	return rp
